@@ -13,6 +13,7 @@ import math
 from fractions import Fraction
 from vlib import common
 from checks import crcommon as cr
+from checks import coeftab
 
 LEVEL = "proof"
 PID = "C04"
@@ -130,7 +131,8 @@ def oracle_total(job, tr):
 
 
 def run(ctx):
-    broken = common.proof_stage(ctx, ["SoxrModel.Properties.C04"], "C04")
+    broken = common.proof_stage(ctx, ["SoxrModel.Properties.C04", "SoxrModel.Properties.C04Coef"], ["C04", "C04Coef"])
+    coeftab.run(ctx, broken, PID)
     exe = common.build_harness("crtrace", ["cr/trace.c"], "rel")
     rng = ctx.rng
     # ---- plans
